@@ -47,6 +47,10 @@ pub struct ReadersCase {
     pub cfg: HistCfg,
     pub ops: Vec<Op>,
     pub readers: Vec<ReaderSpec>,
+    /// SimDir only: every attempt of the segment updater to create the meta lock file fails with an I/O error (the
+    /// garbage collections of the history cannot take the lock: they have to give up, not to go on without it)
+    #[serde(default)]
+    pub gc_lock_fault: bool,
 }
 
 struct Obs {
@@ -123,10 +127,17 @@ impl Sub for Readers {
             2 => Just(Op::Gc),
         ];
         let reader = (any::<bool>(), 1u8..4, prop::option::weighted(0.6, 0u8..12), any::<bool>(), prop::bool::weighted(0.3)).prop_map(|(second_index, hold_every, gate_nth, warmer, auto)| ReaderSpec { second_index, hold_every, gate_nth, warmer, auto });
-        (cfg, prop::collection::vec(op, 6..50), prop::collection::vec(reader, 1..4)).prop_map(|(cfg, ops, readers)| ReadersCase { cfg, ops, readers }).boxed()
+        (cfg, prop::collection::vec(op, 6..50), prop::collection::vec(reader, 1..4), prop::bool::weighted(0.2))
+            .prop_map(|(cfg, ops, readers, gc_lock_fault)| {
+                let gc_lock_fault = gc_lock_fault && cfg.dir == DirKind::Sim;
+                // (an explicit collection reports the lock error to its caller: left out of these histories)
+                let ops = if gc_lock_fault { ops.into_iter().filter(|o| !matches!(o, Op::Gc)).collect() } else { ops };
+                ReadersCase { cfg, ops, readers, gc_lock_fault }
+            })
+            .boxed()
     }
     fn mandatory_labels(&self, _t: Tier) -> Vec<&'static str> {
-        vec!["reload_overlapped_commit", "held_outlived_2_commits", "gate_reached", "second_index", "dir:Mmap", "merge", "gc", "warmer", "warmed_generations>=3", "reload_policy:on_commit", "watcher_reload_advanced_between_commits", "watcher_reload_reached_last_commit"]
+        vec!["reload_overlapped_commit", "held_outlived_2_commits", "gate_reached", "second_index", "dir:Mmap", "merge", "gc", "warmer", "warmed_generations>=3", "reload_policy:on_commit", "watcher_reload_advanced_between_commits", "watcher_reload_reached_last_commit", "gc_could_not_take_meta_lock"]
     }
     fn run(&self, c: &ReadersCase, cx: &Ctx) -> CaseResult {
         let mut env = Env::new(c.cfg.clone())?;
@@ -164,6 +175,11 @@ impl Sub for Readers {
                 })),
                 _ => None,
             });
+        }
+        if c.gc_lock_fault {
+            if let Some(sd) = &sim {
+                sd.set_faults(vec![crate::simdir::FaultRule { kinds: vec![K::Create], thread: "segment_updater".into(), path_suffix: ".tantivy-meta.lock".into(), nth: 0, permanent: true, locks: true }]);
+            }
         }
         let first_index = env.index.clone();
         let mut history_result: CaseResult = Ok(());
@@ -358,6 +374,11 @@ impl Sub for Readers {
             }
             handles.into_iter().map(|h| h.join().unwrap_or_else(|_| ReaderOut { obs: vec![], held: vec![], error: Some(Failure::new("panic:reader", "reader thread panicked")), reader: None, warmed: 0, unwarmed: 0 })).collect()
         });
+        let gc_lock_faults_fired = sim.as_ref().map(|sd| sd.faults_fired()).unwrap_or(0);
+        if let Some(sd) = &sim {
+            sd.clear_faults();
+        }
+        cx.label_if(c.gc_lock_fault && gc_lock_faults_fired > 0, "gc_could_not_take_meta_lock");
         history_result?;
         // writer goes away, files get collected: held searchers must stay intact
         if let Some(w) = env.writer.take() {
